@@ -46,10 +46,13 @@ func c10Formats() []c10Fmt {
 	ctxSelf := `{"custom_func":{"name":"javascript_with_context","args":[{"const":"var n = JSON.parse(_node); Object.keys(n).sort().join('+')"}]}}`
 	// a script that looks for names it was not given (evaluated after "j": arguments of a call that threw must be gone)
 	jsProbe := `{"custom_func":{"name":"javascript","args":[{"const":"typeof v + '/' + typeof _node"}]}}`
+	// the same probe as the FIRST script of a record (children are evaluated in name order): what the last
+	// script of the record before - possibly a failing one - left behind is seen by the next call only
+	jsProbe0 := `{"custom_func":{"name":"javascript","args":[{"const":"typeof v + ':' + typeof _node"}]}}`
 	return []c10Fmt{
 		{Name: "xml", Schema: `{` + h("xml") + `,"transform_declarations":{"FINAL_OUTPUT":{"xpath":"/r/o","object":{
   "anc":{"xpath":"..","object":{"cur":{"xpath":"o/N"},"cnt":{"custom_func":{"name":"concat","args":[{"xpath":"o/@id"},{"const":"/"},{"xpath":"o/J"}]}}}},
-  "id":{"xpath":"@id"},"n":{"xpath":"N","type":"int"},"m":{"xpath":"M"},"j":` + jsThrow + `,"zp":` + jsProbe + `,"keys":` + ctxSelf + `,
+  "id":{"xpath":"@id"},"n":{"xpath":"N","type":"int"},"m":{"xpath":"M"},"j":` + jsThrow + `,"a0":` + jsProbe0 + `,"zp":` + jsProbe + `,"keys":` + ctxSelf + `,
   "items":{"array":[{"xpath":"I","custom_func":{"name":"javascript_with_context","args":[{"const":"JSON.parse(_node)"}]}}]},
   "first":{"xpath":"I[1]","template":"T"},"cp":{"custom_func":{"name":"copy"}},"firstcp":{"xpath":"I[1]","custom_func":{"name":"copy"}}}},
   "T":{"custom_func":{"name":"upper","args":[{"xpath":"."}]}}}}`,
@@ -61,7 +64,7 @@ func c10Formats() []c10Fmt {
 				'E': `<o id="5"><I>f</I><N>5</N><J>boom</J></o>`}},
 		{Name: "json", Schema: `{` + h("json") + `,"transform_declarations":{"FINAL_OUTPUT":{"xpath":"/*","object":{
   "anc":{"xpath":"..","object":{"cur":{"xpath":"*/N"},"cnt":{"custom_func":{"name":"concat","args":[{"xpath":"*/id"},{"const":"/"},{"xpath":"*/J"}]}}}},
-  "id":{"xpath":"id"},"n":{"xpath":"N","type":"int"},"m":{"xpath":"M/*"},"j":` + jsThrow + `,"zp":` + jsProbe + `,"keys":` + ctxSelf + `,
+  "id":{"xpath":"id"},"n":{"xpath":"N","type":"int"},"m":{"xpath":"M/*"},"j":` + jsThrow + `,"a0":` + jsProbe0 + `,"zp":` + jsProbe + `,"keys":` + ctxSelf + `,
   "items":{"array":[{"xpath":"I/*","custom_func":{"name":"javascript_with_context","args":[{"const":"JSON.parse(_node)"}]}}]},
   "first":{"xpath":"I/*[1]","template":"T"},"cp":{"custom_func":{"name":"copy"}},"firstcp":{"xpath":"I/*[1]","custom_func":{"name":"copy"}}}},
   "T":{"custom_func":{"name":"upper","args":[{"xpath":"."}]}}}}`,
@@ -72,24 +75,24 @@ func c10Formats() []c10Fmt {
 				'D': `{"id":4,"I":["e"],"N":4,"M":[1,2],"J":"x"}`,
 				'E': `{"id":5,"I":["f"],"N":5,"J":"boom"}`}},
 		{Name: "csv", Schema: `{` + h("csv") + `,"file_declaration":{"delimiter":",","data_row_index":1,"columns":[{"name":"id"},{"name":"N"},{"name":"J"},{"name":"M"}]},
- "transform_declarations":{"FINAL_OUTPUT":{"object":{"id":{"xpath":"id"},"n":{"xpath":"N","type":"int"},"m":{"xpath":"*[.='dup']"},"j":` + jsThrow + `,"zp":` + jsProbe + `,"keys":` + ctxSelf + `,"cp":{"custom_func":{"name":"copy"}},"t":{"xpath":"id","template":"T"}}},
+ "transform_declarations":{"FINAL_OUTPUT":{"object":{"id":{"xpath":"id"},"n":{"xpath":"N","type":"int"},"m":{"xpath":"*[.='dup']"},"j":` + jsThrow + `,"a0":` + jsProbe0 + `,"zp":` + jsProbe + `,"keys":` + ctxSelf + `,"cp":{"custom_func":{"name":"copy"}},"t":{"xpath":"id","template":"T"}}},
  "T":{"custom_func":{"name":"upper","args":[{"xpath":"."}]}}}}`,
 			Rec: map[byte]string{'A': "a1,1,x,-\n", 'B': "\"b,2\",22,y,dup\n", 'C': "c3,zz,x,-\n", 'D': "d4,4,dup,dup\n", 'E': "e5,5,boom,-\n"}},
 		{Name: "csv2", Schema: `{` + h("csv2") + `,"file_declaration":{"delimiter":",","records":[{"name":"H","header":"^H","is_target":true,"columns":[{"name":"id","index":2},{"name":"N","index":3},{"name":"J","index":4}],
    "child_records":[{"name":"D","header":"^D","columns":[{"name":"v","index":2}]},{"name":"M","header":"^M","columns":[{"name":"w","index":2}]}]}]},
  "transform_declarations":{"FINAL_OUTPUT":{"object":{"anc":{"xpath":"..","object":{"cur":{"xpath":"H/N"},"cnt":{"custom_func":{"name":"concat","args":[{"xpath":"H/id"},{"const":"/"},{"xpath":"H/J"}]}}}},
-  "id":{"xpath":"id"},"n":{"xpath":"N","type":"int"},"m":{"xpath":"M/w"},"j":` + jsThrow + `,"zp":` + jsProbe + `,"keys":` + ctxSelf + `,
+  "id":{"xpath":"id"},"n":{"xpath":"N","type":"int"},"m":{"xpath":"M/w"},"j":` + jsThrow + `,"a0":` + jsProbe0 + `,"zp":` + jsProbe + `,"keys":` + ctxSelf + `,
   "items":{"array":[{"xpath":"D","custom_func":{"name":"javascript_with_context","args":[{"const":"JSON.parse(_node).v"}]}}]},"cp":{"custom_func":{"name":"copy"}},"first":{"xpath":"D[1]/v","template":"T"}}},
  "T":{"custom_func":{"name":"upper","args":[{"xpath":"."}]}}}}`,
 			Rec: map[byte]string{'A': "H,a1,1,x\nD,a\nD,b\n", 'B': "H,b2,22,y\nD,c\nM,m\n", 'C': "H,c3,zz,x\nD,d\n", 'D': "H,d4,4,x\nD,e\nM,1\nM,2\n", 'E': "H,e5,5,boom\nD,f\n"}},
 		{Name: "fixed-length", Schema: `{` + h("fixed-length") + `,"file_declaration":{"envelopes":[{"by_rows":2,"columns":[{"name":"id","start_pos":2,"length":2,"line_pattern":"^1"},{"name":"N","start_pos":4,"length":2,"line_pattern":"^1"},{"name":"J","start_pos":2,"length":4,"line_pattern":"^2"},{"name":"M","start_pos":6,"length":3,"line_pattern":"^2"}]}]},
- "transform_declarations":{"FINAL_OUTPUT":{"object":{"id":{"xpath":"id"},"n":{"xpath":"N","type":"int"},"m":{"xpath":"*[starts-with(.,'dup')]"},"j":` + jsThrow + `,"zp":` + jsProbe + `,"keys":` + ctxSelf + `,"cp":{"custom_func":{"name":"copy"}},"t":{"xpath":"id","template":"T"}}},
+ "transform_declarations":{"FINAL_OUTPUT":{"object":{"id":{"xpath":"id"},"n":{"xpath":"N","type":"int"},"m":{"xpath":"*[starts-with(.,'dup')]"},"j":` + jsThrow + `,"a0":` + jsProbe0 + `,"zp":` + jsProbe + `,"keys":` + ctxSelf + `,"cp":{"custom_func":{"name":"copy"}},"t":{"xpath":"id","template":"T"}}},
  "T":{"custom_func":{"name":"upper","args":[{"xpath":"."}]}}}}`,
 			Rec: map[byte]string{'A': "1a1 1\n2x   -\n", 'B': "1b222\n2y   dup\n", 'C': "1c3zz\n2x   -\n", 'D': "1d4 4\n2dup dup\n", 'E': "1e5 5\n2boom-\n"}},
 		{Name: "fixedlength2", Schema: `{` + h("fixedlength2") + `,"file_declaration":{"envelopes":[{"name":"H","header":"^H","is_target":true,"columns":[{"name":"id","start_pos":2,"length":2},{"name":"N","start_pos":4,"length":2},{"name":"J","start_pos":6,"length":4}],
    "child_envelopes":[{"name":"D","header":"^D","columns":[{"name":"v","start_pos":2,"length":1}]},{"name":"M","header":"^M","columns":[{"name":"w","start_pos":2,"length":1}]}]}]},
  "transform_declarations":{"FINAL_OUTPUT":{"object":{"anc":{"xpath":"..","object":{"cur":{"xpath":"H/N"},"cnt":{"custom_func":{"name":"concat","args":[{"xpath":"H/id"},{"const":"/"},{"xpath":"H/J"}]}}}},
-  "id":{"xpath":"id"},"n":{"xpath":"N","type":"int"},"m":{"xpath":"M/w"},"j":` + jsThrow + `,"zp":` + jsProbe + `,"keys":` + ctxSelf + `,
+  "id":{"xpath":"id"},"n":{"xpath":"N","type":"int"},"m":{"xpath":"M/w"},"j":` + jsThrow + `,"a0":` + jsProbe0 + `,"zp":` + jsProbe + `,"keys":` + ctxSelf + `,
   "items":{"array":[{"xpath":"D","custom_func":{"name":"javascript_with_context","args":[{"const":"JSON.parse(_node).v"}]}}]},"cp":{"custom_func":{"name":"copy"}},"first":{"xpath":"D[1]/v","template":"T"}}},
  "T":{"custom_func":{"name":"upper","args":[{"xpath":"."}]}}}}`,
 			Rec: map[byte]string{'A': "Ha1 1x\nDa\nDb\n", 'B': "Hb222y\nDc\nMm\n", 'C': "Hc3zzx\nDd\n", 'D': "Hd4 4x\nDe\nM1\nM2\n", 'E': "He5 5boom\nDf\n"}},
@@ -97,7 +100,7 @@ func c10Formats() []c10Fmt {
    {"name":"grp","type":"segment_group","is_target":true,"min":0,"max":-1,"child_segments":[{"name":"H","elements":[{"name":"id","index":1},{"name":"N","index":2},{"name":"J","index":3}]},
      {"name":"D","min":0,"max":-1,"elements":[{"name":"v","index":1}]},{"name":"M","min":0,"max":-1,"elements":[{"name":"w","index":1}]}]}]},{"name":"IEA"}]},
  "transform_declarations":{"FINAL_OUTPUT":{"object":{"anc":{"xpath":"..","object":{"cur":{"xpath":"grp/H/N"},"cnt":{"custom_func":{"name":"concat","args":[{"xpath":"grp/H/id"},{"const":"/"},{"xpath":"grp/H/J"}]}}}},
-  "id":{"xpath":"H/id"},"n":{"xpath":"H/N","type":"int"},"m":{"xpath":"M/w"},"j":{"xpath":"H","template":"JS"},"zp":` + jsProbe + `,"keys":` + ctxSelf + `,
+  "id":{"xpath":"H/id"},"n":{"xpath":"H/N","type":"int"},"m":{"xpath":"M/w"},"j":{"xpath":"H","template":"JS"},"a0":` + jsProbe0 + `,"zp":` + jsProbe + `,"keys":` + ctxSelf + `,
   "items":{"array":[{"xpath":"D","custom_func":{"name":"javascript_with_context","args":[{"const":"JSON.parse(_node).v"}]}}]},"cp":{"custom_func":{"name":"copy"}},"first":{"xpath":"D[1]/v","template":"T"}}},
  "JS":` + jsThrow + `,"T":{"custom_func":{"name":"upper","args":[{"xpath":"."}]}}}}`,
 			Prefix: "ISA~", Suffix: "IEA~", Rec: map[byte]string{'A': "H*a1*1*x~D*a~D*b~", 'B': "H*b2*22*y~D*c~M*m~", 'C': "H*c3*zz*x~D*d~", 'D': "H*d4*4*x~D*e~M*1~M*2~", 'E': "H*e5*5*boom~D*f~"}},
